@@ -3,7 +3,7 @@ prop(
     quick=[("native", 16), ("miri", 16)],
     thorough=[("native", 16), ("asan", 16), ("miri", 16)],
     level="exploration",
-    min_evals={"quick": 600_000, "thorough": 12_000_000},
+    min_evals={"quick": 690_000, "thorough": 18_000_000},
     rule=(
         "random histories (seeded per shard) of 5-15 ops over the real Client and the real Server::run joined by in-memory pipes "
         "(buffer sizes 1..4096 bytes per direction, so responses are suspended mid-PDU) with a byte-level middlebox, on a paused-clock "
@@ -41,7 +41,28 @@ prop(
         "class, pipe size class per direction). Observation counters large_v<version>_<reset|serial>_responses_over_<4KiB|8KiB|16KiB|64KiB|256KiB|1MiB>, "
         "..._with_65536_items_or_more, large_responses_with_a_single_pdu_over_<size>, large_responses_with_a_pdu_longer_than_a_pipe, max:payload_octets_in_one_response, "
         "max:longest_payload_pdu say which regions a run reached; a violation found there names the differing items literally with their position (payload PDU number, "
-        "octets of payload PDUs before it) in the response as the source presented it."
+        "octets of payload PDUs before it) in the response as the source presented it. "
+        "FOREIGN CACHE (all stages; c06_foreign.rs): the real Client against a cache that is not the library's server - scripted conversations of 1-4 exchanges "
+        "(quick 64 000 transcripts, thorough 1.6 M, ASan 48 000, Miri 32; seeded per shard) laid out by the harness' independent PDU encoder c07_io::Pdu, reserved fields "
+        "then overwritten in the octets, served by a scripted socket that releases each answer only after the query it answers was written (whole / octet by octet / in "
+        "chunks with not-ready polls). The cache uses the freedoms RFC 6810 / 8210 / 8210bis give a sender and the library's server never uses: flags octets with reserved bits "
+        "(one bit, bit 7, all bits, any octet, mixed per PDU; lowest-order bit = announce/withdraw), non-zero reserved fields (4th body octet and header field of IPv4/IPv6 "
+        "prefix PDUs, octet after the flags of router key / ASPA PDUs, header field of Cache Reset: lowest bit, all ones, any, mixed), payload PDUs in any order with types "
+        "interleaved, items with a history inside one answer (announce-then-withdraw, withdraw-then-announce, announced twice, withdrawn twice, withdrawal of something absent, "
+        "announcement of something held), an ASPA record replaced by a second announcement of the same customer (inside one answer or of a held record), ASPA withdrawals "
+        "with no / the held / other providers, End of Data timing at both ends of the ranges of RFC 8210 section 6 (all minimum, all maximum, mixed ends, next to the ends, "
+        "inside, defaults, outside), serial steps of 0, 1, many, 2^31-1, 2^31.., to 0 / 1 / 2^32-1, random; answers: difference to a serial query, full set to a reset query, "
+        "Cache Reset then full set (same or new session id); cache version 0-2 with the client asking the same or a higher version (answered by an unsupported-version "
+        "Error Report or directly in the lower version); client with or without initial state and data; entry point step() or update()+apply(); later exchanges started by "
+        "Serial Notify or by the refresh timer in virtual time. One evaluation = one exchange that returned Ok and whose queries were the ones the script answers, judged by "
+        "a model written from the documents: previous data (empty for an answer to a reset query) with the PDUs applied in wire order by their lowest-order flags bit, ASPA keyed "
+        "by customer = what the target's log replayed on the previous data must give; Client::state() = End of Data; version >= 1 and regular timing values: timing handed to "
+        "the target = End of Data's. Open cases accept every reading and are counted (foreign_open_*): payload types the cache's version lacks (applied / ignored), withdrawals "
+        "inside an answer to a reset query (applied / ignored), timing outside the ranges or expire not above refresh and retry (recorded only). Exchanges that end in Err "
+        "assert nothing and end the transcript (foreign_exchanges_refused, foreign_refused:<class>). Signature classes of a completed foreign exchange: F (version, answer kind, "
+        "flags style, reserved-field style, how the version was agreed, entry point, delivery), G (version, answer kind, set of item-history shapes in the answer, open cases "
+        "present), H (version, answer kind, timing class, what started the exchange). An exchange with an empty difference registers H only. A data violation found there is "
+        "named after the first PDU the target was handed differently from how it was sent (type, sent as, handed on as / not handed on, dress)."
     ),
     assumptions=[
         "a failed step ends the connection (as Client::run does); the next step uses a new connection",
@@ -55,6 +76,13 @@ prop(
         "large data sets: generated values are within what the library's own constructors accept (at most 16380 providers per ASPA; router key info up to 1.1 MB, far "
         "below the 4 GiB a PDU length can express); the octets-per-PDU figures used to size the sets and to locate a lost item (20 / 32 / 32 + key info / 12 + 4 per "
         "provider) are those of RFC 8210 and 8210bis and are never part of a verdict; if fewer than half of the steps over large data complete, a note says so",
+        "foreign cache: the data the transcript prescribes follows the statement literally (announcements and withdrawals applied in order, set semantics: a second announcement of a held "
+        "item and a withdrawal of an absent one change nothing, an ASPA announcement replaces the record of that customer, an ASPA withdrawal removes it whatever providers it carries); "
+        "the harness target accepts every update, so the 'SHOULD report an error' cases of RFC 8210 5.6 (duplicate announcement, unknown withdrawal) complete; reserved flag bits and "
+        "reserved fields do not change the meaning of a PDU (RFC 8210 sections 5, 5.6, 5.7, 5.10: 'MUST be ignored on receipt'); a client that refuses such PDUs with an error is not "
+        "reported (conditional on completion), only counted",
+        "foreign cache: the scripted socket never has an answer readable before its query was written; an exchange in which the client's queries are not the ones the script answers "
+        "(type, session, serial taken from the previous End of Data) is not evaluated and a note says so; refresh values stay at or below 30 000 000 s (timer wheel, see above)",
     ],
     level_text=(
         "Runtime oracle over executions of the real client/server pair: the harness target records every (action, payload) and the timing, "
@@ -63,13 +91,18 @@ prop(
         "payload types of the version in that PDU. Exploration of random update/query histories with all protocol versions, downgrade through "
         "an emulated older cache, diff availability classes and updates racing a suspended response, plus a matrix of histories over large data sets "
         "(responses of 4 KiB to several MiB and of a few hundred to some hundred thousand items for every version, single PDUs of up to 1.1 MB, pipes of 1 octet to 3 MiB) for every path whose behaviour "
-        "depends on the size of a response; Miri and ASan repeat a reduced workload "
+        "depends on the size of a response, plus scripted conversations with a cache that is not the library's server (reserved flag bits and fields, any order, item histories "
+        "inside one answer, timing at the ends of its ranges) judged against a model of the PDU semantics written from the RFCs; Miri and ASan repeat a reduced workload "
         "for the packed PDU structs and the unchecked slice in the error path."
     ),
     level_note=(
         "Sampled histories only; the oracle trusts the harness' own source/diff implementation (self-checked: every diff offered leads from the "
-        "old to the current snapshot) and the byte tap. Aborted steps (e.g. a Serial Notify between query and response) assert nothing."
+        "old to the current snapshot) and the byte tap. Aborted steps (e.g. a Serial Notify between query and response) assert nothing. "
+        "The foreign-cache transcripts are sampled too and stay small (up to 60 payload PDUs per answer, the small universe of the random histories); their oracle trusts the "
+        "independent encoder c07_io::Pdu plus the octet positions of the reserved fields written down from the PDU diagrams. Sender freedoms not exercised: host bits set in a "
+        "prefix, Serial Notify inside a response, a session id that changes without Cache Reset, error reports other than unsupported version. With refresh = 0 and a delivery "
+        "that is not ready at once the client abandons a half-read Serial Notify and the next exchange ends in Err (counted under foreign_refused, asserts nothing)."
     ),
-    technique="runtime oracle (replayed target log, in an integer model and in Eq/Ord/Hash-keyed reference targets, vs. source snapshot) over random client/server histories in virtual time and over a size-class x version x shape matrix of histories with large data sets, large diffs and single very large PDUs + Eq/Ord/Hash coherence laws on neighbour triples + Miri/ASan",
+    technique="runtime oracle (replayed target log, in an integer model and in Eq/Ord/Hash-keyed reference targets, vs. source snapshot) over random client/server histories in virtual time and over a size-class x version x shape matrix of histories with large data sets, large diffs and single very large PDUs + the real client against a scripted foreign cache (transcripts from the independent PDU encoder, model of the PDU semantics from the RFCs) + Eq/Ord/Hash coherence laws on neighbour triples + Miri/ASan",
     design_ref="DESIGN.md §4 C06",
 )
